@@ -24,6 +24,9 @@ func modelQuery(x *Exec, o *Obligation, terms []string) map[string]string {
 		return map[string]string{}
 	}
 	base := x.smtFor([]*Obligation{o}, 0)
+	// incremental core (push) and no set-logic: z3 then keeps its candidate model after "unknown"
+	base = "(push)\n" + strings.Replace(base, "(set-logic ALL)\n", "", 1)
+	base = strings.Replace(base, "(check-sat)\n", x.modelExtra+"(check-sat)\n", 1)
 	for _, s := range []string{"z3-5.1.0", "z3-4.8.12"} {
 		q := base + "(get-value (" + strings.Join(terms, " ") + "))\n"
 		f, err := os.CreateTemp(scratchDir(), "m*.smt2")
@@ -207,6 +210,27 @@ func tryReplay(P *Program, j *checkJob, o *Obligation, rec map[string]any) bool 
 	}
 	var args []string
 	fr := x.auxFrames
+	// prefer small inputs: cap every length-like leaf of the parameters
+	x.modelExtra = ""
+	if len(fr) > 0 {
+		var lens []Term
+		for _, pv := range fr[0].params {
+			lens = append(lens, lengthLeaves(x, pv)...)
+		}
+		if len(lens) > 0 {
+			for _, cap := range []int64{2, 4, 8, 32, 256} {
+				extra := ""
+				for _, l := range lens {
+					extra += fmt.Sprintf("(assert (<= %s %d))\n", l.S, cap)
+				}
+				x.modelExtra = extra
+				if m := modelQuery(x, o, []string{lens[0].S}); m != nil {
+					break
+				}
+				x.modelExtra = ""
+			}
+		}
+	}
 	if len(fr) == 0 {
 		rec["replay"] = "not attempted: no frame"
 		return false
@@ -299,7 +323,19 @@ func runOverlayTest(pkgDir, src, testName string) (string, error) {
 	if err := os.WriteFile(tf, []byte(src), 0o644); err != nil {
 		return "", err
 	}
-	ov := map[string]any{"Replace": map[string]string{filepath.Join(pkgDir, "zz_govc_replay_test.go"): tf}}
+	repl := map[string]string{filepath.Join(pkgDir, "zz_govc_replay_test.go"): tf}
+	if ovf := os.Getenv("GOVC_OVERLAY"); ovf != "" {
+		// selftest mutants: the replay must run the same (mutated) source the verifier saw
+		if data, err := os.ReadFile(ovf); err == nil {
+			m := map[string]string{}
+			if json.Unmarshal(data, &m) == nil {
+				for k, v := range m {
+					repl[k] = v
+				}
+			}
+		}
+	}
+	ov := map[string]any{"Replace": repl}
 	ovData, _ := json.Marshal(ov)
 	ovFile := filepath.Join(tmp, "overlay.json")
 	os.WriteFile(ovFile, ovData, 0o644)
@@ -376,4 +412,21 @@ func runBoundedTest(b PlanBounded, tier string, seed int) map[string]any {
 		res["output"] = truncate(out, 3000)
 	}
 	return res
+}
+
+// lengthLeaves lists the length terms of a parameter value (strings, slices, nested byte slices are capped lazily).
+func lengthLeaves(x *Exec, v Value) []Term {
+	switch v := v.(type) {
+	case VStr:
+		return []Term{v.Len}
+	case VSlice:
+		return []Term{v.Len}
+	case VStruct:
+		var out []Term
+		for _, f := range v.Fields {
+			out = append(out, lengthLeaves(x, f)...)
+		}
+		return out
+	}
+	return nil
 }
